@@ -46,9 +46,11 @@ def finish (s : CState) (now : Nat) : CState :=
     delivStore := s.delivStore.filter (fun p => ¬ (now - p.2.1 > s.ttlDeliv)),
     delivSegStore := s.delivSegStore.filter (fun p => ¬ (now - p.2.1 > s.ttlDeliv)) }
 
-/-- one turn of a sweep: visit keys until a request is swept out (the sweep then awaits the hook: `some rest`) or the
-    snapshot is exhausted (`none`).  A key that is no longer in the store — removed by another task meanwhile — is
-    skipped. -/
+/-- one turn of a sweep: visit keys until a request is swept out WITH a hook call (the sweep then awaits the hook:
+    `some rest`) or the snapshot is exhausted (`none`).  A key that is no longer in the store — removed by another task
+    meanwhile — is skipped.  A request swept out without a hook call (`expired` awaits nothing for a request that is
+    not a submit_sm, or for a segment whose message has other segments open) does not end the turn: the code gives up
+    control only where it awaits the hook. -/
 def sweepTurn (now : Nat) : List Nat → CState → CState × List Obs × Option Sweep
   | [], s => (finish s now, [], none)
   | k :: ks, s =>
@@ -56,9 +58,13 @@ def sweepTurn (now : Nat) : List Nat → CState → CState × List Obs × Option
     | none => sweepTurn now ks s
     | some (at_, m) =>
       if now - at_ > s.ttlResp then
-        let s1 := { s with store := adel s.store k }
-        let (s2, o) := expired s1 m
-        (s2, [.timeout k o], some ⟨now, ks⟩)
+        if (expired { s with store := adel s.store k } m).2 = [] then
+          ((sweepTurn now ks (expired { s with store := adel s.store k } m).1).1,
+           .timeout k [] :: (sweepTurn now ks (expired { s with store := adel s.store k } m).1).2.1,
+           (sweepTurn now ks (expired { s with store := adel s.store k } m).1).2.2)
+        else
+          ((expired { s with store := adel s.store k } m).1,
+           [.timeout k (expired { s with store := adel s.store k } m).2], some ⟨now, ks⟩)
       else sweepTurn now ks s
 
 /-- `put` after its sweep: the request is stored under its sequence number with the clock value read then; a segment is
